@@ -30,7 +30,8 @@ def gen(rng, tier, shape=None):
         pending = [c for c in CATS if rng.random() < 0.8]
         return {"pending": pending, "cli": [c for c in CATS if rng.random() < 0.45], "env": None, "pyd": None, "pyd_tui": None,
                 "shortcut": None, "tty": False, "ci": None, "xdist": None, "answers": {c: False for c in CATS}, "skip": False,
-                "xfail": False, "dup": rng.random() < 0.3, "unknown": False, "empty_no": False}
+                "xfail": False, "dup": rng.random() < 0.3, "unknown": False, "empty_no": False,
+                "split": rng.random() < 0.5}      # the pending categories are spread over two test files
     pending = [c for c in CATS if rng.random() < 0.75]
     cats = [c for c in CATS if rng.random() < 0.4]
     mode = rng.choice([[], [], ["report"], ["review"], ["short-report"], ["disable"]])
@@ -66,9 +67,24 @@ def gen(rng, tier, shape=None):
     return case
 
 
+def split_cats(case):
+    """(categories in test_a.py, categories in test_b.py)"""
+    if not case.get("split"):
+        return list(case["pending"]), []
+    return list(case["pending"][0::2]), list(case["pending"][1::2])
+
+
+def project_b(case):
+    lines = ["from inline_snapshot import snapshot", "import pytest", ""]
+    for c in split_cats(case)[1]:
+        for i in range(2 if case["dup"] else 1):
+            lines += [f"def test_{c}_{i}():", "    " + BODY[c][0], ""]
+    return "\n".join(lines)
+
+
 def project(case):
     lines = ["from inline_snapshot import snapshot", "import pytest", ""]
-    for c in case["pending"]:
+    for c in split_cats(case)[0]:
         copies = 2 if case["dup"] else 1
         for i in range(copies):
             lines += [f"def test_{c}_{i}():", "    " + BODY[c][0], ""]
@@ -93,6 +109,7 @@ MODULE_XFAIL = ("from inline_snapshot import snapshot\nimport pytest\n\npytestma
 
 
 import hashlib
+SEP = "\n# ---- test_b.py ----\n"
 ORPHAN = ".inline-snapshot/external/" + hashlib.sha256(b"orphan").hexdigest() + ".txt"
 
 
@@ -196,16 +213,24 @@ def run_impl(case):
     if case["env"] is not None:
         env["INLINE_SNAPSHOT_DEFAULT_FLAGS"] = ",".join(case["env"])
     files = {"test_a.py": src}
+    src_b = None
+    if split_cats(case)[1]:
+        src_b = project_b(case)
+        files["test_b.py"] = src_b
     if case["xfail"]:
         files["test_zz_module_xfail.py"] = MODULE_XFAIL
     if case.get("orphan"):
         files[ORPHAN] = b"orphan"
     r = impl_pytest.run_session(files, args, env, stdin_for(case), pyproject(case))
     after = r["files"].get("test_a.py", b"").decode()
+    if src_b is not None:
+        # two files: judged as one text (the test names are unique)
+        after = after + SEP + r["files"].get("test_b.py", b"").decode()
+        src = src + SEP + src_b
     obs = {"rc": r["rc"], "outcomes": r["outcomes"], "changed": after != src, "after": after,
            "usage_error": r["rc"] == 4 and after == src, "traceback": "Traceback" in r["stderr"],
            "stderr": r["stderr"][-1500:], "stdout_tail": r["stdout"][-1500:],
-           "other_files": sorted(k for k in r["files"] if k not in ("test_a.py", "pyproject.toml", "test_zz_module_xfail.py", ORPHAN) and not k.startswith("probe")),
+           "other_files": sorted(k for k in r["files"] if k not in ("test_a.py", "test_b.py", "pyproject.toml", "test_zz_module_xfail.py", ORPHAN) and not k.startswith("probe")),
            "orphan_survived": r["files"].get(ORPHAN) == b"orphan",
            "probe": sorted({v.decode() for k, v in r["files"].items() if k.startswith("probe_")}),
            "probex": sorted({v.decode() for k, v in r["files"].items() if k.startswith("probex_")})}
@@ -226,7 +251,7 @@ def run_impl(case):
     obs["xfail_changed"] = xf_changed
     plain = plain_cli(case)
     if plain is not None:
-        obs["three_way"] = three_way(src, plain)
+        obs["three_way"] = three_way(src, plain)          # src: one file, or two joined by SEP
     return obs
 
 
@@ -244,14 +269,14 @@ def three_way(src, cats):
     for name in ("run_inline", "run_pytest"):
         try:
             with contextlib.redirect_stdout(sink), contextlib.redirect_stderr(sink):
-                ex = Example({"test_a.py": src})
+                ex = Example(dict(zip(("test_a.py", "test_b.py"), src.split(SEP))))
                 if name == "run_inline":
                     cap = _Capture()
                     new = ex.run_inline([flag] if cats else [], raises=_Anything(), reported_categories=cap)
                     out["inline_reported"] = cap.seen
                 else:
                     new = ex.run_pytest([flag] if cats else [], returncode=_Anything())
-            out[name] = new.files.get("test_a.py")
+            out[name] = new.files.get("test_a.py") if SEP not in src else new.files.get("test_a.py", "") + SEP + new.files.get("test_b.py", "")
         except BaseException as e:  # noqa: BLE001
             out[name] = "EXC " + type(e).__name__ + ": " + str(e)[:200]
     return out
